@@ -1,15 +1,17 @@
 #!/bin/bash
-# Build the framework from files on disk only (offline). Warms the nightly MIR-dump target and builds the replay binary.
+# Build the framework from files on disk only (offline): warms the two nightly MIR-dump targets and builds the replay binaries.
 set -e
 cd "$(dirname "$0")"
 export CARGO_NET_OFFLINE=true
 mkdir -p .cache evidence
 python3-vt - <<'PY'
-import sys
+import sys, time
 sys.path.insert(0, '.')
 from mirsym.dump import dump_mir
 from mirsym.harness import build_replay
-p, secs, cached = dump_mir(False, force=True)
-print('MIR dump (no default features):', p, f'{secs:.1f}s')
-print('replay binary:', build_replay(False))
+for feats in (False, True):
+    p, secs, cached = dump_mir(feats, force=True)
+    print('MIR dump', 'default features' if feats else 'no default features', p, f'{secs:.1f}s', flush=True)
+for fc in (False, True):
+    t = time.time(); print('replay binary', build_replay(fc), f'{time.time() - t:.1f}s', flush=True)
 PY
